@@ -93,47 +93,136 @@ impl Property for C03Prop {
                 "excluded": d.excluded,
             });
         }
-        // module program: main imports values from ./lib; D(P) adds type-only traffic
-        let plain_main = format!("import {{ libv, libf }} from \"./lib\";\n{}__t(9000, [libv, libf(2)]);\n{}", SHOW_PRELUDE, module_tail(&render_plain(&p.marked)));
+        // module program: main imports values (named, default, namespace) from ./lib and USES them;
+        // D(P) adds type-only traffic around exactly the same value imports
         let mut n = d.count;
         let mut bump = |k: &str, n: &mut usize| {
             *kinds.entry(k.to_string()).or_insert(0) += 1;
             *n += 1;
         };
-        let import_line = match tape.below(5) {
-            0 => "import { libv, libf } from \"./lib\";".to_string(),
-            1 => {
+        // the value-import shape of P, the expression that uses every imported binding, and D's variants of the shape
+        let shape = tape.below(5);
+        let (plain_import, uses): (&str, &str) = match shape {
+            0 => ("import { libv, libf } from \"./lib\";", "[libv, libf(2)]"),
+            1 => ("import Def from \"./lib\";", "[Def.k, Def.f(2)]"),
+            2 => ("import Def, { libv, libf } from \"./lib\";", "[Def.k, Def.f(2), libv, libf(2)]"),
+            3 => ("import Def, * as ns from \"./lib\";", "[Def.k, ns.libv, ns.libf(2), ns.default === Def, Object.keys(ns).sort().join()]"),
+            _ => ("import * as ns from \"./lib\";", "[ns.libv, ns.libf(2), ns.default.k, Object.keys(ns).sort().join()]"),
+        };
+        let variant = tape.below(5);
+        let import_line: String = match (shape, variant) {
+            (0, 0) => plain_import.to_string(),
+            (0, 1) => {
                 bump("module:inline-type-specifier", &mut n);
                 "import { libv, type LT, libf } from \"./lib\";".to_string()
             }
-            2 => {
+            (0, 2) => {
                 bump("module:inline-type-specifier", &mut n);
                 "import { type LT as Renamed, libv, libf, type LI } from \"./lib\";".to_string()
             }
-            3 => {
+            (0, 3) => {
                 bump("module:import-type", &mut n);
                 "import type { TA } from \"./types\";\nimport { libv, libf } from \"./lib\";\nimport type TDef from \"./types\";".to_string()
             }
-            _ => {
+            (0, _) => {
                 bump("module:import-type", &mut n);
                 "import { libv, libf } from \"./lib\";\nimport type * as Types from \"./types\";\nimport type { LT } from \"./lib\";".to_string()
             }
+            // default binding + a braced list in which every specifier is type-only
+            (1, 0) | (1, 1) => {
+                bump("module:default-plus-only-type-specifiers", &mut n);
+                if variant == 0 { "import Def, { type LT, type LI } from \"./lib\";".to_string() } else { "import Def, { type LT as Renamed } from \"./lib\";".to_string() }
+            }
+            (1, 2) => {
+                bump("module:import-type", &mut n);
+                "import Def from \"./lib\";\nimport type { LT } from \"./lib\";\nimport type LibDefault from \"./lib\";".to_string()
+            }
+            (1, 3) => {
+                bump("module:inline-type-specifier", &mut n);
+                // a second declaration for the same module that only imports types is erased as a whole
+                "import Def from \"./lib\";\nimport { type LT, type LI } from \"./lib\";".to_string()
+            }
+            (1, _) => {
+                bump("module:import-type", &mut n);
+                "import type { TA } from \"./types\";\nimport Def from \"./lib\";".to_string()
+            }
+            (2, 0) => {
+                bump("module:default-plus-inline-type-specifier", &mut n);
+                "import Def, { type LT, libv, libf } from \"./lib\";".to_string()
+            }
+            (2, 1) => {
+                bump("module:default-plus-inline-type-specifier", &mut n);
+                "import Def, { libv, type LI, libf, type LT as Renamed } from \"./lib\";".to_string()
+            }
+            (2, 2) => {
+                bump("module:import-type", &mut n);
+                "import Def, { libv, libf } from \"./lib\";\nimport type * as LibTypes from \"./lib\";".to_string()
+            }
+            (2, 3) => {
+                bump("module:inline-type-specifier", &mut n);
+                "import Def, { libv, libf } from \"./lib\";\nimport { type LT } from \"./lib\";".to_string()
+            }
+            (2, _) => plain_import.to_string(),
+            // namespace imports next to type-only imports of the same module
+            (3, 0) => {
+                bump("module:namespace-plus-type-import", &mut n);
+                "import Def, * as ns from \"./lib\";\nimport type { LT, LI } from \"./lib\";".to_string()
+            }
+            (3, 1) => {
+                bump("module:namespace-plus-type-import", &mut n);
+                "import { type LT, type LI } from \"./lib\";\nimport Def, * as ns from \"./lib\";".to_string()
+            }
+            (3, 2) => {
+                bump("module:namespace-plus-type-import", &mut n);
+                "import type * as LibTypes from \"./lib\";\nimport Def, * as ns from \"./lib\";\nimport type { TA } from \"./types\";".to_string()
+            }
+            (3, _) => plain_import.to_string(),
+            (_, 0) => {
+                bump("module:namespace-plus-type-import", &mut n);
+                "import * as ns from \"./lib\";\nimport type LibDefault from \"./lib\";\nimport { type LT } from \"./lib\";".to_string()
+            }
+            (_, 1) => {
+                bump("module:namespace-plus-type-import", &mut n);
+                "import type { LT } from \"./lib\";\nimport * as ns from \"./lib\";".to_string()
+            }
+            (_, 2) => {
+                bump("module:import-type", &mut n);
+                "import * as ns from \"./lib\";\nimport type * as Types from \"./types\";".to_string()
+            }
+            (_, _) => plain_import.to_string(),
         };
-        let deco_main = format!("{}\n{}__t(9000, [libv, libf(2)]);\n{}", import_line, SHOW_PRELUDE, module_tail(&d.text));
-        let plain_lib = "console.log(\"lib\");\nexport const libv = 41;\nexport function libf(x) { return x + 1; }\n".to_string();
-        let deco_lib = match tape.below(4) {
-            0 => "console.log(\"lib\");\nexport const libv = 41;\nexport function libf(x) { return x + 1; }\nexport type LT = number;\nexport interface LI {}\n".to_string(),
+        // main's own export list: `export { type T, value }`
+        let (plain_export, deco_export): (&str, String) = match tape.below(4) {
+            0 => ("const mval = 1;\nexport { mval };", "const mval = 1;\nexport { mval };".to_string()),
             1 => {
-                bump("module:export-type-declaration", &mut n);
-                "console.log(\"lib\");\nexport type LT = number;\nexport interface LI { a: LT }\nexport const libv: LT = 41;\nexport function libf(x: number): number;\nexport function libf(x: string): string;\nexport function libf(x: any) { return x + 1; }\nexport declare const ghost: number;\nexport declare function ghostf(): void;\n".to_string()
+                bump("module:export-inline-type-specifier", &mut n);
+                ("const mval = 1;\nexport { mval };", "type MT = number;\nconst mval: MT = 1;\nexport { type MT, mval };".to_string())
             }
             2 => {
-                bump("module:export-type-list", &mut n);
-                "console.log(\"lib\");\ntype LT = number;\ninterface LI {}\nexport type { LT, LI };\nexport type { TA as Again } from \"./types\";\nexport const libv = 41 as LT;\nexport function libf<T extends number>(x: T) { return x + 1; }\n".to_string()
+                bump("module:export-inline-type-specifier", &mut n);
+                ("const mval = 1;\nexport { mval };", "interface MI {}\ntype MT = MI;\nconst mval = 1;\nexport { mval, type MT as MU, type MI };".to_string())
             }
             _ => {
                 bump("module:export-type-list", &mut n);
-                "console.log(\"lib\");\nimport type { TA } from \"./types\";\ntype LT = TA;\ninterface LI {}\nconst libv = 41;\nfunction libf(x: number) { return x + 1; }\nexport { libv, type LT, libf, type LI };\nexport type * from \"./types\";\ndeclare global { interface FromLib {} }\n".to_string()
+                ("const mval = 1;\nexport { mval as renamed };", "type MT = 1;\nconst mval = 1;\nexport { mval as renamed };\nexport type { MT };\nexport type { LT as ReLT } from \"./lib\";".to_string())
+            }
+        };
+        let plain_main = format!("{}\n{}\n{}__t(9000, {});\n{}", plain_import, plain_export, SHOW_PRELUDE, uses, module_tail(&render_plain(&p.marked)));
+        let deco_main = format!("{}\n{}\n{}__t(9000, {});\n{}", import_line, deco_export, SHOW_PRELUDE, uses, module_tail(&d.text));
+        let plain_lib = "console.log(\"lib\");\nexport const libv = 41;\nexport function libf(x) { return x + 1; }\nconst Def = { k: 7, f(x) { return x * 2; } };\nexport default Def;\n".to_string();
+        let deco_lib = match tape.below(4) {
+            0 => "console.log(\"lib\");\nexport const libv = 41;\nexport function libf(x) { return x + 1; }\nexport type LT = number;\nexport interface LI {}\nconst Def = { k: 7, f(x) { return x * 2; } };\nexport default Def;\n".to_string(),
+            1 => {
+                bump("module:export-type-declaration", &mut n);
+                "console.log(\"lib\");\nexport type LT = number;\nexport interface LI { a: LT }\nexport const libv: LT = 41;\nexport function libf(x: number): number;\nexport function libf(x: string): string;\nexport function libf(x: any) { return x + 1; }\nexport declare const ghost: number;\nexport declare function ghostf(): void;\nconst Def = { k: 7 as LT, f(x: number): number { return x * 2; } };\nexport default Def;\n".to_string()
+            }
+            2 => {
+                bump("module:export-type-list", &mut n);
+                "console.log(\"lib\");\ntype LT = number;\ninterface LI {}\nexport type { LT, LI };\nexport type { TA as Again } from \"./types\";\nexport const libv = 41 as LT;\nexport function libf<T extends number>(x: T) { return x + 1; }\nconst Def = { k: 7, f<T extends number>(x: T) { return x * 2; } } satisfies object;\nexport default Def;\n".to_string()
+            }
+            _ => {
+                bump("module:export-type-list", &mut n);
+                "console.log(\"lib\");\nimport type { TA } from \"./types\";\ntype LT = TA;\ninterface LI {}\nconst libv = 41;\nfunction libf(x: number) { return x + 1; }\nexport { libv, type LT, libf, type LI };\nexport type * from \"./types\";\ndeclare global { interface FromLib {} }\nconst Def = { k: 7, f(x: number) { return x * 2; } };\nexport default Def;\nexport { type LT as AlsoLT };\n".to_string()
             }
         };
         json!({
